@@ -147,10 +147,14 @@ class Ctx:
             self.taken.append(True)
             self.hyps.append(cond)
             return True
+        # one-sided outcomes are recorded as (forced) decisions too: a replay consumes one recorded decision per symbolic
+        # branch point, so every branch point of the first run must own an entry or the replay would drift onto other paths
         if ft:
+            self.taken.append(True)
             self.hyps.append(cond)
             return True
         if ff:
+            self.taken.append(False)
             self.hyps.append(z3.Not(cond))
             return False
         raise Infeasible()
